@@ -177,8 +177,29 @@ def worker(ctx):
             st_.extra['bytes_equal_AB'] = st_.extra.get('bytes_equal_AB', 0) + int(info['bytes_equal_AB'])
         st_.note(xv.sha([[g['text'] for g in case['grammars']], [i['doc'] for i in case['instances']], lock, api]), info.get('nontrivial', False), labels)
         if info.get('nontrivial'): st_.sample({'grammars': [g['text'][:400] for g in case['grammars']], 'instances': [i['doc'][:200] for i in case['instances'][:3]]}, limit=2)
-        if not ok: raise PropertyFailure(case, detail)
+        if not ok:
+            # no Hypothesis shrinking here: one execution costs seconds (three pools x instances); a cheap greedy reduction instead
+            if len(st_.failures) < 3:
+                case, detail = reduce_case(case, detail, ex)
+                st_.failures.append({'case': case, 'detail': detail})
     hyp_run(ctx, case_strategy(), prop, ctx.budget, batches=3)
+
+def reduce_case(case, detail, ex):
+    def fails(c):
+        ok, d, _ = run_case(c, ex)
+        return (not ok), d
+    # 1. one instance at a time (the first that still fails alone), else none
+    cands = [dict(case, instances=[i]) for i in case['instances']][:12] + [dict(case, instances=[])]
+    for c in cands:
+        f, d = fails(c)
+        if f: case, detail = c, d; break
+    # 2. a single grammar
+    if len(case['grammars']) > 1:
+        for g in case['grammars']:
+            c = dict(case, grammars=[g])
+            f, d = fails(c)
+            if f: case, detail = c, d; break
+    return case, detail
 
 def replay(case, ctx):
     ok, detail, info = run_case(case, ctx.executor('xv_pool'))
